@@ -16,22 +16,24 @@ import (
 // segment-index configuration.
 
 type c01Case struct {
-	Kind  string  `json:"kind"` // poly, line, rect, point
-	Ext   []jpt   `json:"exterior,omitempty"`
-	Holes [][]jpt `json:"holes,omitempty"`
-	Pts   []jpt   `json:"points,omitempty"`
-	Query jpt     `json:"query"`
-	Index string  `json:"index"`
-	API   string  `json:"api"`
-	Got   bool    `json:"got"`
-	Want  bool    `json:"want"`
+	Kind  string    `json:"kind"` // poly, line, rect, point
+	Ext   []jpt     `json:"exterior,omitempty"`
+	Holes [][]jpt   `json:"holes,omitempty"`
+	Pts   []jpt     `json:"points,omitempty"`
+	Query jpt       `json:"query"`
+	Index string    `json:"index"`
+	API   string    `json:"api"`
+	Got   bool      `json:"got"`
+	Want  bool      `json:"want"`
+	Moved []float64 `json:"moved_by,omitempty"` // shape translated through Move(); the query is translated alike
 }
 
 type c01Shape struct {
 	kind  string
 	ext   []exact.P
 	holes [][]exact.P
-	pts   []exact.P // line vertices / rect min,max / point
+	pts   []exact.P      // line vertices / rect min,max / point
+	off   geometry.Point // non-zero while the shape under test has been translated through Move()
 }
 
 func (s *c01Shape) oracle() func(p exact.P) bool {
@@ -76,6 +78,9 @@ func (s *c01Shape) mkCase(q exact.P, ic IdxCfg, api string, got, want bool) c01C
 	for _, h := range s.holes {
 		cs.Holes = append(cs.Holes, jps(h))
 	}
+	if s.off != (geometry.Point{}) {
+		cs.Moved = []float64{s.off.X, s.off.Y}
+	}
 	return cs
 }
 
@@ -103,6 +108,7 @@ func (s *c01Shape) build(ic IdxCfg) (geometry.Geometry, geojson.Object) {
 // c01Probe judges every API level for one (shape, query) pair.
 func c01Probe(c *mon.Ctx, s *c01Shape, g geometry.Geometry, o geojson.Object, feat geojson.Object, q exact.P, want bool, ic IdxCfg, objLevel bool) {
 	gq := gpt(q)
+	gq.X, gq.Y = gq.X+s.off.X, gq.Y+s.off.Y
 	bad := func(api string, got bool) {
 		c.Violation("membership", api+" differs from exact planar membership", s.mkCase(q, ic, api, got, want))
 	}
@@ -151,6 +157,9 @@ func c01Probe(c *mon.Ctx, s *c01Shape, g geometry.Geometry, o geojson.Object, fe
 	}
 }
 
+// exact translations (every lattice coordinate plus the delta is representable)
+var c01Moves = []geometry.Point{{X: 8, Y: -3}, {X: 0, Y: 5}, {X: -2.5, Y: 0}, {X: 1024, Y: 4096}, {X: -0.0625, Y: 0.125}}
+
 // c01Shape runs all query points against a shape under the index configs.
 func c01RunShape(c *mon.Ctx, s *c01Shape, qs []exact.P, cfgs []IdxCfg, objEvery int) (inside int) {
 	orc := s.oracle()
@@ -170,6 +179,31 @@ func c01RunShape(c *mon.Ctx, s *c01Shape, qs []exact.P, cfgs []IdxCfg, objEvery 
 				c01Probe(c, s, g, o, feat, q, want[i], ic, objEvery > 0 && (i+ci)%objEvery == 0)
 			}
 		}
+		// the same shape translated by the library through Move(), queries translated alike
+		d := c01Moves[(len(s.ext)+len(s.pts)+len(qs)+inside)%len(c01Moves)]
+		ic := cfgs[(len(qs)+inside)%len(cfgs)]
+		g, o := s.build(ic)
+		switch v := g.(type) {
+		case *geometry.Poly:
+			mv := v.Move(d.X, d.Y)
+			g, o = mv, geojson.NewPolygon(mv)
+		case *geometry.Line:
+			mv := v.Move(d.X, d.Y)
+			g, o = mv, geojson.NewLineString(mv)
+		case geometry.Rect:
+			mv := v.Move(d.X, d.Y)
+			g, o = mv, geojson.NewRect(mv)
+		case geometry.Point:
+			mv := v.Move(d.X, d.Y)
+			g, o = mv, geojson.NewPoint(mv)
+		}
+		s.off = d
+		defer func() { s.off = geometry.Point{} }()
+		feat := geojson.NewFeature(o, "")
+		for i, q := range qs {
+			c01Probe(c, s, g, o, feat, q, want[i], ic, objEvery > 0 && i%(4*objEvery) == 0)
+		}
+		c.Count("moved_shapes")
 	})
 	return inside
 }
@@ -482,7 +516,25 @@ func c01Replay(kind string, raw json.RawMessage) (bool, string) {
 	bad := false
 	for _, ic := range append(append([]IdxCfg{}, baseIdx...), IdxCfg{geometry.QuadTree, 64}, IdxCfg{geometry.RTree, 64}) {
 		g, o := s.build(ic)
-		a, b := g.ContainsPoint(gpt(q)), o.Contains(geojson.NewPoint(gpt(q)))
+		gq := gpt(q)
+		if len(cs.Moved) == 2 {
+			gq.X, gq.Y = gq.X+cs.Moved[0], gq.Y+cs.Moved[1]
+			switch v := g.(type) {
+			case *geometry.Poly:
+				mv := v.Move(cs.Moved[0], cs.Moved[1])
+				g, o = mv, geojson.NewPolygon(mv)
+			case *geometry.Line:
+				mv := v.Move(cs.Moved[0], cs.Moved[1])
+				g, o = mv, geojson.NewLineString(mv)
+			case geometry.Rect:
+				mv := v.Move(cs.Moved[0], cs.Moved[1])
+				g, o = mv, geojson.NewRect(mv)
+			case geometry.Point:
+				mv := v.Move(cs.Moved[0], cs.Moved[1])
+				g, o = mv, geojson.NewPoint(mv)
+			}
+		}
+		a, b := g.ContainsPoint(gq), o.Contains(geojson.NewPoint(gq))
 		if a != want || b != want {
 			bad = true
 		}
@@ -498,7 +550,7 @@ func init() {
 		Assumptions: []string{"coordinates in the exact domain (multiples of 1/8, |c| <= 2^20)", "oracle: crossing parity with the half-open rule over exactly the segments the series rule defines (internal/exact.Locate)"},
 		Exhaustive:  func(string) bool { return true },
 		Run:         c01Run,
-		MustSee:     []string{"parsed_with_allowrects", "parsed_as_rect", "exhaustive_done", "object_level_probes", "polys_with_holes", "random_rings_ge64", "shapes_line", "shapes_rect", "shapes_point"},
+		MustSee:     []string{"parsed_with_allowrects", "parsed_as_rect", "exhaustive_done", "moved_shapes", "object_level_probes", "polys_with_holes", "random_rings_ge64", "shapes_line", "shapes_rect", "shapes_point"},
 		Replay:      c01Replay,
 	})
 }
